@@ -28,6 +28,7 @@ from pv import c14_real as real
 from pv import c14_universes as unis
 
 PROP = "C14"
+BATCH = 150000          # tuples per TLC trace-validation run
 _T0 = [0.0]
 # processes / concurrent TLC runs (development: PV_C14_PAR=4)
 PAR = int(os.environ.get("PV_C14_PAR", "0")) or core.NCPU
@@ -39,7 +40,6 @@ def _log(msg):
         if not _T0[0]:
             _T0[0] = time.time()
         print(f"[C14 +{time.time() - _T0[0]:6.1f}s] {msg}", flush=True)
-BATCH = 150000          # tuples per TLC trace-validation run
 
 
 # ------------------------------------------------------------------ matchers
@@ -333,13 +333,6 @@ def _validate(tmp, universes_kinds, records, corrupt=None):
         for v in res.printed("DIVERGE"):
             diverged.add(v["id"])
     return verdicts, diverged, states, generated
-
-
-def _effect_children(uni_model, rec_key):
-    ent = uni_model.get(rec_key)
-    if ent is None:
-        return None
-    return ent[1] if ent[0] else None
 
 
 def _pyline(op):
